@@ -109,6 +109,7 @@ func runC11(r *vf.Run) {
 			if !r.Want(qid) {
 				continue
 			}
+			rng := r.RNG(qid) // per-case stream: a replay of this case alone draws the same choices
 			e := gen.Expr(rng, ds, cols, rng.Intn(4), 3)
 			gb := gen.GroupBy(rng, ds, rng.Intn(3), 3000)
 			if id == "regress-too-few" && qi == 0 {
